@@ -36,7 +36,7 @@ func DecodeMessageTable(b []byte) (_ format.MessageTable, size int, err error) {
 
 	// Table size
 	tableSize, m := decodeSize(b[:end])
-	if m < 0 {
+	if m <= 0 {
 		err = errors.New("decode message: invalid table size")
 		return
 	}
@@ -45,7 +45,7 @@ func DecodeMessageTable(b []byte) (_ format.MessageTable, size int, err error) {
 
 	// Data size
 	dataSize, m := decodeSize(b[:end])
-	if m < 0 {
+	if m <= 0 {
 		err = fmt.Errorf("decode message: invalid data size")
 		return
 	}
